@@ -465,13 +465,14 @@ type Lemma struct {
 type ContractSet struct {
 	ByKey  map[string]*Contract
 	Lemmas []*Lemma
+	Rules  map[string]*RuleContract // contracts on the rules of the grammar table (typing.go)
 	Files  []string
 }
 
-var clauseHead = regexp.MustCompile(`^(func|external|lemma|requires|ensures_recovered|ensures|assume|panics_only_if|invariant|decreases|assigns|loop|trusted|may_panic|fresh|dead_returns|var|hyp|concl|fuel|opaque)\b(\[[^\]]*\])?\s*(.*)$`)
+var clauseHead = regexp.MustCompile(`^(func|external|lemma|rule|yields|requires|ensures_recovered|ensures|assume|panics_only_if|invariant|decreases|assigns|loop|trusted|may_panic|fresh|dead_returns|var|hyp|concl|fuel|opaque)\b(\[[^\]]*\])?\s*(.*)$`)
 
 func loadContracts(files []string) (*ContractSet, error) {
-	cs := &ContractSet{ByKey: map[string]*Contract{}}
+	cs := &ContractSet{ByKey: map[string]*Contract{}, Rules: map[string]*RuleContract{}}
 	for _, f := range files {
 		b, err := os.ReadFile(f)
 		if err != nil {
@@ -530,6 +531,7 @@ func (cs *ContractSet) parseFile(file, src string) error {
 	var cur *Contract
 	var curLoop *LoopContract
 	var curLemma *Lemma
+	var curRule *RuleContract
 	hdr := regexp.MustCompile(`^([\w.$*]+)\s*\(([^)]*)\)\s*(?:\(([^)]*)\))?\s*$`)
 	for _, r := range raws {
 		mk := func(kind string) (*Clause, error) {
@@ -575,8 +577,29 @@ func (cs *ContractSet) parseFile(file, src string) error {
 				return fmt.Errorf("%s:%d: duplicate contract for %s", file, r.line, key)
 			}
 			cs.ByKey[key] = cur
-			curLoop, curLemma = nil, nil
+			curLoop, curLemma, curRule = nil, nil, nil
+		case "rule":
+			m := regexp.MustCompile(`^(\w+)\s*\(\s*(\w+)\s*(?:,\s*(\w+)\s*)?\)$`).FindStringSubmatch(strings.TrimSpace(r.rest))
+			if m == nil {
+				return fmt.Errorf("%s:%d: bad rule header %q (want: rule Name(v) or rule Name(v, n))", file, r.line, r.rest)
+			}
+			if _, dup := cs.Rules[m[1]]; dup {
+				return fmt.Errorf("%s:%d: duplicate rule contract for %s", file, r.line, m[1])
+			}
+			curRule = &RuleContract{Name: m[1], Var: m[2], LenVar: m[3], File: file, Line: r.line}
+			cs.Rules[m[1]] = curRule
+			cur, curLoop, curLemma = nil, nil, nil
+		case "yields":
+			if curRule == nil {
+				return fmt.Errorf("%s:%d: yields outside rule", file, r.line)
+			}
+			c, err := mk(r.head)
+			if err != nil {
+				return err
+			}
+			curRule.Yields = append(curRule.Yields, c)
 		case "lemma":
+			curRule = nil
 			curLemma = &Lemma{Name: strings.TrimSpace(r.rest), File: file, Line: r.line, Fuel: 1}
 			if r.tag != "" {
 				for _, p := range strings.Split(r.tag, ",") {
@@ -733,7 +756,7 @@ func contractFiles(repo string) []string {
 			fs = append(fs, g)
 		}
 	}
-	specs, _ := filepath.Glob("/verif/spec/*.spec")
+	specs, _ := filepath.Glob(specDir() + "/*.spec")
 	sort.Strings(specs)
 	fs = append(fs, specs...)
 	return fs
